@@ -69,7 +69,7 @@ Section Forest.
 
   (* left_child / right_sib chains list exactly the children *)
   Definition kids_rep (fuel : nat) (t : tree) (N : Z) : Prop :=
-    forall u, 0 <= u < N -> exists ks, children fuel t u = Ok ks /\
+    forall u, 0 <= u < N -> exists ks, children fuel t u = Ok ks /\ NoDup ks /\
       forall v, In v ks <-> par v = Some u.
 
   (* the chain under the virtual root lists, among the requested nodes, exactly the parentless *)
@@ -133,7 +133,7 @@ Definition opt_is (o : option Z) (u : Z) : bool :=
 Definition kids_rep_b (par : Z -> option Z) (fuel : nat) (t : tree) (N : Z) : bool :=
   forallb (fun u =>
     match children fuel t u with
-    | Ok ks => forallb (fun v => opt_is (par v) u) ks &&
+    | Ok ks => nodup_b ks && forallb (fun v => opt_is (par v) u) ks &&
                forallb (fun v => implb (opt_is (par v) u) (mem v ks)) (zrange N)
     | _ => false
     end) (zrange N).
